@@ -354,6 +354,9 @@ func regKernel() {
 			m = int(int64(len(in.data)) - off)
 		}
 		ob := s.wobj(buf.Obj)
+		if ob.Virtual && buf.Off+m > len(ob.Cells) {
+			ob = s.materialize(buf.Obj, buf.Off+m)
+		}
 		copy(ob.Cells[buf.Off:buf.Off+m], in.data[off:off+int64(m)])
 		return m, nilErr()
 	}
